@@ -101,11 +101,18 @@ pub(crate) fn cmd_decode(args: &str) -> Result<String, String> {
     for chunk in get(&kv, "chunks").unwrap_or("").split(',').filter(|c| !c.is_empty()) {
         let bytes = unhex(chunk)?;
         let mut context = DecodingContext { maximum_packet_size: max, protocol_version: version, decoded_packets: &mut packets };
-        if let Err(e) = decoder.decode_bytes(&bytes, &mut context) {
-            verdict = format!("err:{}", error_kind(&e));
-            // keep feeding: a terminal decoder must stay terminal
-        } else if verdict != "ok" {
-            verdict = "recovered-after-error".to_string();
+        // keep feeding after an error: a terminal decoder must stay terminal; the verdict is the first error
+        match decoder.decode_bytes(&bytes, &mut context) {
+            Err(e) => {
+                if verdict == "ok" {
+                    verdict = format!("err:{}", error_kind(&e));
+                }
+            }
+            Ok(()) => {
+                if verdict != "ok" {
+                    verdict = "recovered-after-error".to_string();
+                }
+            }
         }
     }
     let mut out = format!("res={} n={}", verdict, packets.len());
